@@ -39,6 +39,6 @@ NoIncl   == {FALSE}
 BothIncl == {FALSE, TRUE}
 
 \* behaviour emission: a complete behaviour is printed once, as JSON
-Emit == done => PrintT(<<"REPLAY", ToJson(hist)>>)
+Emit == fin => PrintT(<<"REPLAY", ToJson(hist)>>)
 
 =============================================================================
